@@ -1093,6 +1093,27 @@ def rule_r14(repo, run, T):
                           not nonempty,
                           "`%s` only stores the first value for a key: later users of the same key (e.g. other types needing "
                           "the same header) are forgotten" % m.seg(st.value), m.loc(st))
+    # C helpers requested by a Fortran module (interfaces bound to <prefix>ShroudCopyArray ...) are collected once per
+    # *module*: the library, every namespace that is not flattened and every class file
+    wmod = wf.func("Wrapf.write_module")
+    per_module = set(["Wrapf.write_module"])
+    for c in ast.walk(wmod):
+        if isinstance(c, ast.Call) and (pyflow.call_name(c) or "").startswith("self.") and any(
+                pyflow.is_name(a, "fileinfo") for a in c.args):
+            per_module.add("Wrapf." + (pyflow.call_name(c) or "").split(".")[-1])
+    acc = []
+    for q, fn in wf.functions().items():
+        for c in ast.walk(fn):
+            if isinstance(c, ast.Call) and str(wf.seg(c.func)) == "self.shared_helper.update" and c.args \
+                    and str(wf.seg(c.args[0])).endswith(".c_helper"):
+                acc.append((q, c))
+    if not acc:
+        raise AnalysisError("C05.R14: accumulation of Fortran-requested C helpers (shared_helper.update) not found")
+    for q, c in acc:
+        run.check(R, "wrapf.%s:shared-helpers-per-module" % q, q in per_module,
+                  "the C helpers a Fortran module needs are merged into the shared table in %s, which does not run once per "
+                  "module (%s do): helpers requested only by a namespace or class module are bound in its interfaces but never "
+                  "written to the C utility file (undefined reference at link time)" % (q, sorted(per_module)), wf.loc(c))
     # order of the passes
     mm = repo.module("main")
     f = mm.func("main_with_args")
@@ -1179,6 +1200,54 @@ def rule_r19(repo, run, T):
                   "by the type that appears in the prototype (the element type of a std::vector): the header of that type "
                   "(<stdint.h> for int64_t) is never included" % v, wc.loc(a))
     run.floor(R, "header registrations of argument types", k, 1)
+    # the mirror image in the Fortran wrapper: the kinds imported for a dummy argument are those of the *Fortran* argument
+    # (a fortran_generic variant declares real(C_FLOAT) while the C function takes double): the import is made from the
+    # typemap as it is before lookup_c_statements(c_arg) replaces it by the C argument's
+    wfm = repo.module("wrapf")
+    wi = wfm.func("Wrapf.wrap_function_impl")
+    k2 = 0
+    for c in ast.walk(wi):
+        if isinstance(c, ast.Call) and str(wfm.seg(c.func)) == "self.update_f_module" and len(c.args) == 3 \
+                and isinstance(c.args[2], ast.Attribute) and isinstance(c.args[2].value, ast.Name) and c.args[2].attr == "f_module":
+            v = c.args[2].value.id
+            st = c
+            while not isinstance(getattr(st, "_parent", None), (ast.For, ast.If, ast.FunctionDef, ast.While)):
+                st = st._parent
+            seq = [lst for lst in (getattr(st._parent, "body", []), getattr(st._parent, "orelse", [])) if any(x is st for x in lst)]
+            if not seq:
+                continue
+            seq = seq[0]
+            idx = [i for i, x in enumerate(seq) if x is st][0]
+            redefs = [x for x in seq[:idx] if isinstance(x, ast.Assign) and "lookup_c_statements" in wfm.seg(x.value)
+                      and any(v in [n_.id for n_ in ast.walk(t_) if isinstance(n_, ast.Name)] for t_ in x.targets)]
+            later = [x for x in seq[idx + 1:] if isinstance(x, ast.Assign) and "lookup_c_statements" in wfm.seg(x.value)
+                     and any(v in [n_.id for n_ in ast.walk(t_) if isinstance(n_, ast.Name)] for t_ in x.targets)]
+            if not redefs and not later:
+                continue
+            k2 += 1
+            run.check(R, "wrapf.Wrapf.wrap_function_impl:update_f_module(%s.f_module)" % v, not redefs,
+                      "the `use` list of the wrapper is filled from `%s.f_module` after lookup_c_statements() has replaced `%s` by "
+                      "the C argument's typemap: a generic variant `(float scale)` of `void f(double scale)` declares "
+                      "real(C_FLOAT) and imports only C_DOUBLE" % (v, v), wfm.loc(c))
+    run.floor(R, "kind imports of Fortran dummy arguments", k2, 1)
+    # a function named in a table is defined: the descriptor table names {PY_setter} exactly when the setter is written
+    wpm = repo.module("wrapp")
+    wv = wpm.func("Wrapp.wrap_class_variable")
+    names = [a for a in ast.walk(wv) if isinstance(a, ast.Assign) and isinstance(a.targets[0], ast.Attribute)
+             and a.targets[0].attr == "PY_setter" and "nullptr" not in wpm.seg(a.value)]
+    defs = [c for c in ast.walk(wv) if isinstance(c, ast.Constant) and isinstance(c.value, str)
+            and re.search(r"static\s+int\s+\{PY_setter\}\s*\(", c.value)]
+    if not names or not defs:
+        raise AnalysisError("C05.R19: naming / definition of the member setter not found in wrap_class_variable")
+    a1 = set().union(*[pyflow.path_atoms(a, stop=wv, seg=wpm.seg) for a in names])
+    a2 = set().union(*[pyflow.path_atoms(c, stop=wv, seg=wpm.seg) for c in defs])
+    run.check(R, "wrapp.Wrapp.wrap_class_variable:setter-named-iff-defined", a1 == a2,
+              "PY_setter is given the setter's name under %s but the setter function is written under %s: for a +readonly "
+              "member the PyGetSetDef row names a function that does not exist (undeclared identifier)" % (sorted(a1), sorted(a2)),
+              wpm.loc(names[0]))
+    from checks import c02
+    from sa.report import import_rules
+    import_rules(run, R, c02, repo, {"C02.R12"}, only=lambda c: c.startswith("wrapc.compute_cxx_deref"))
 
 
 def rule_r15(repo, run, T):
